@@ -21,7 +21,9 @@ BitLen(c) == LET a == Abs64(c) IN
 Max2(a, b) == IF a > b THEN a ELSE b
 BiasBits(id) == IF id \in FieldIds THEN FieldOf(id).biasbits ELSE 0
 MantOf(ft) == IF ft = "f32" THEN 24 ELSE 53
-SigExp(r) == Max2(BitLen(r.kbits), BiasBits(r.id)) + 5 - MantOf(cur.ftype)
+SigExpF(r, ft) == Max2(BitLen(r.kbits), BiasBits(r.id)) + 5 - MantOf(ft)
+SigExp(r) == SigExpF(r, cur.ftype)
+FtypeOf(id) == IF id \in FieldIds THEN FieldOf(id).ftype ELSE "f32"      \* the hand-written bias quantisers are f32
 (* distance of t from the half step is at least 2^GapExp *)
 GapExp(t16) == CASE t16 \in {0} -> -1 [] t16 \in {1, 15} -> -2 [] t16 \in {4, 12} -> -2 [] t16 \in {7, 9} -> -4 [] OTHER -> -100
 
@@ -46,7 +48,7 @@ TraceProbe == IsEvent("Probe") /\ ProbeOk(Rec[l]) = TRUE /\ prev' = Rec[l].kout 
 Init == l = 1 /\ cur = [id |-> "", ftype |-> "f64"] /\ prev = <<>>
 Next == TraceBegin \/ TraceProbe
 
-Explain(r) == IF r.ev = "Probe" THEN [sigexp |-> SigExp(r), gapexp |-> GapExp(r.t16), field |-> cur,
+Explain(r) == IF r.ev = "Probe" THEN [sigexp |-> SigExpF(r, FtypeOf(r.id)), gapexp |-> GapExp(r.t16), field |-> r.id,
                                       rule |-> "kout in {k,k+1}; nearer neighbour outside the slack band; err <= 1/2 + sigma; monotone"]
               ELSE [event |-> r.ev]
 Accepted == LET d == TLCGet("stats").diameter IN
